@@ -14,14 +14,97 @@ from checks import c02, c07, c17
 from mirsym.codec_models import CODEC_MODELS, CODEC_SUBST
 
 
+def dump_value(M, v):
+    """canonical JSON of a value produced by a type_info() body (no symbolic inputs: everything is concrete or a named opaque constant)"""
+    from mirsym.engine import Tok, ValSlice, VecV, EnumV, FnItem, Ref, ClosureV
+    import z3
+    if v is None: return None
+    if isinstance(v, Tok): return {'tok': v.name}
+    if isinstance(v, FnItem): return {'fn': v.name}
+    if isinstance(v, ValSlice):
+        if all(z3.is_bv_value(b) for b in v.elems) and getattr(v, 'is_str', False): return bytes(b.as_long() for b in v.elems).decode('utf-8', 'replace')
+        return [dump_value(M, x) for x in v.elems]
+    if isinstance(v, VecV): return [dump_value(M, x) for x in v.elems[:M.concrete(v.len, 'dump.len')]]
+    if isinstance(v, EnumV):
+        d = v.discr if isinstance(v.discr, int) else M.concrete(v.discr, 'dump.discr')
+        return {'enum': v.enum, 'variant': d, 'fields': [dump_value(M, x) for x in v.payloads.get(d, [])]}
+    if isinstance(v, Ref): return dump_value(M, M.load(v))
+    if isinstance(v, list): return [dump_value(M, x) for x in v]
+    if z3.is_expr(v):
+        s = z3.simplify(v)
+        return s.as_long() if z3.is_bv_value(s) else (bool(z3.is_true(s)) if z3.is_true(s) or z3.is_false(s) else str(s))
+    return repr(v)
+
+
+def body_typeinfo(fn, instance=0):
+    """one built-in impl's type_info() executed from the MIR of this feature set; nested type_info() calls and const generics stay symbolic names"""
+    import re, z3
+    from mirsym.engine import Tok
+    def body(M):
+        M.aux['instance_index'] = instance; M.aux['tid_distinct'] = True
+        M.models.insert(0, (re.compile(r'<.+ as TypeInfo>::type_info'), lambda M, a, c, fr: Tok('result-of:' + c)))
+        M.aux['const_hook'] = lambda M, s: z3.BitVec('const-generic-' + s, 64) if re.fullmatch(r'[A-Z]\w*', s) else NotImplemented
+        r = M.run_fn(fn, [])
+        M.emit('ok', dump=dump_value(M, r))
+    return body
+
+
+def strip_docs(d):
+    """dump of a Type<MetaForm> with every documentation list emptied (type, fields, variants, fields of variants)"""
+    import copy
+    d = copy.deepcopy(d)
+    if not (isinstance(d, list) and len(d) == 4 and isinstance(d[2], dict)): return d
+    d[3] = []
+    def fields(fs):
+        for f in fs:
+            if isinstance(f, list) and len(f) == 4: f[3] = []
+    td = d[2]
+    if td.get('variant') == 0: fields(td['fields'][0][0])
+    elif td.get('variant') == 1:
+        for v in td['fields'][0][0]:
+            if isinstance(v, list) and len(v) == 4: v[3] = []; fields(v[1])
+    return d
+
+
+def builtin_impls(fns, decls):
+    """[(label, Fn, instance index)] for the type_info() of every impl TypeInfo in the crate, macro instances included"""
+    out = []
+    for f in list(fns.values()):
+        if f.impl is None or f.method != 'type_info' or f.kind != 'fn': continue
+        if decls.impl_info(f.impl).get('trait') != 'TypeInfo': continue
+        label = '%s @%s:%d' % (decls.impl_info(f.impl)['self_full'], f.impl[0], f.impl[1])
+        out.append((label, f, 0))
+        for j, g in enumerate(getattr(fns, 'instances', {}).get(f.name, [])): out.append(('%s #%d' % (label, j + 1), g, j + 1))
+    return out
+
+
 def run(ctx):
     T = ctx.thorough()
     sets = ['default', 'nostd_decode', 'serde', 'docs'] + (['bitvec', 'all'] if T else [])
     ctx.bounds = {'feature sets': {s: ' '.join(FEATURESETS[s]) or '(default: std)' for s in sets}, 'per feature set': 'encoder vs reference on one-entry registries of every kind (ids < 64 and one full-range run), into_portable image for every kind (vectors <= 2), 10 builder skeletons per shape'}
-    ctx.outside = ['that type_info() of every concrete Rust type has the same content in every configuration except docs (no symbolic variable there; not decided)', 'the schema feature (adds only JsonSchema impls; its MIR is not dumped: schemars is not needed by any encoded byte)',
+    ctx.outside = ['type_info() of types outside the crate (derived or hand-written) in different configurations: the derive is a separate crate without features; the built-in impls are compared per configuration (d)', 'the schema feature (adds only JsonSchema impls; its MIR is not dumped: schemars is not needed by any encoded byte)',
                    'Kani harnesses run under the default feature set only']
     ctx.assumptions = ['the reference encoder / image / builder specifications are configuration independent (they are Python code outside the crate)']
     cexs = []
+    # (d) the built-in impls: type_info() of every impl TypeInfo of the crate (macro instances included) has the same content in every configuration
+    dumps = {}
+    for fs in sets:
+        fns, decls, _ = load_mir(fs)
+        impls = builtin_impls(fns, decls)
+        if len(impls) < 50: raise CheckInconclusive('only %d built-in TypeInfo impls found in the MIR of feature set %s' % (len(impls), fs))
+        dumps[fs] = {}
+        for label, f, j in impls:
+            h = run_harness(ctx, '%s-typeinfo-%s' % (fs, label), body_typeinfo(f, j), fs=fs, models=c17.MODELS_C17, jobs=1)
+            dumps[fs][label] = h.results[0].get('dump') if h.results and h.results[0]['kind'] == 'ok' else None
+    base = dumps['default']
+    for fs in sets[1:]:
+        # with `docs` in the feature set only the documentation lists may differ
+        norm = strip_docs if 'docs' in ' '.join(FEATURESETS[fs]) else (lambda d: d)
+        diff = [l for l in sorted(set(base) | set(dumps[fs])) if (l in base) != (l in dumps[fs]) or json.dumps(norm(base.get(l)), sort_keys=True) != json.dumps(norm(dumps[fs].get(l)), sort_keys=True)]
+        # bit-vec adds impls; everything present in both must agree, and nothing of the default set may be missing
+        diff = [l for l in diff if l in base]
+        ctx.obligations['[%s] type_info() of all %d built-in impls == default configuration' % (fs, len(base))] = 'sat' if diff else 'unsat'
+        for l in diff[:3]: cexs.append(('typeinfo', fs, {'kind': 'cex', 'impl': l, 'default': base.get(l), 'this': dumps[fs].get(l)}))
     for fs in sets:
         docs_feature = 'docs' in ' '.join(FEATURESETS[fs])
         # (a)
@@ -51,7 +134,11 @@ def run(ctx):
         # native confirmation: the replay binary built with that feature set (docs) / default must show the difference
         feats = 'docs' if 'docs' in ' '.join(FEATURESETS[fs]) else ('nostd' if '--no-default-features' in FEATURESETS[fs] else None)
         nat = ctx.get_native(feats)
-        if what == 'encode': a = nat.ask({'op': 'layout_battery', 'seed': ctx.seed}); rep = bool(a.get('failed'))
+        if what == 'typeinfo':
+            a, b = ctx.get_native().ask({'op': 'corpus_bytes_nodocs'}), nat.ask({'op': 'corpus_bytes_nodocs'})
+            rep = bool(a.get('sha')) and bool(b.get('sha')) and a.get('sha') != b.get('sha')
+            case['native'] = {'default build': a, 'this build': b}
+        elif what == 'encode': a = nat.ask({'op': 'layout_battery', 'seed': ctx.seed}); rep = bool(a.get('failed'))
         elif what == 'image': a = nat.ask({'op': 'registry_laws', 'seed': ctx.seed}); rep = any(f.get('law') == 'faithful' for f in a.get('failed', []))
         else: a = nat.ask({'op': 'builder_laws'}); rep = bool(a.get('failed'))
         if not rep and fs not in ('default', 'docs', 'nostd_decode'):
@@ -65,7 +152,9 @@ def run(ctx):
         # docs changes documentation strings only: the two native builds must encode the law corpus identically once docs are stripped
         a, b = ctx.get_native().ask({'op': 'corpus_bytes_nodocs'}), ctx.get_native('docs').ask({'op': 'corpus_bytes_nodocs'})
         if a.get('sha') != b.get('sha') or not a.get('sha'): raise CheckInconclusive('native corpus differs between docs on/off beyond documentation strings: %s vs %s' % (a, b))
-        ctx.validated += 2
+        c = ctx.get_native('nostd').ask({'op': 'corpus_bytes_nodocs'})
+        if a.get('sha') != c.get('sha'): raise CheckInconclusive('native corpus differs between the std and the no_std build: %s vs %s' % (a, c))
+        ctx.validated += 3
         ctx.notes.append('native cross-check: law corpus encoded with docs stripped is byte-identical in the docs-on and docs-off builds (sha %s)' % a.get('sha'))
     ctx.samples.append({'argument': 'forall F: encode_F(v) == ref(v)  =>  encode_F(v) == encode_F\'(v)', 'feature sets': sets})
     return finish(ctx, 'model_checking',
